@@ -6,6 +6,7 @@ import Genshi.Lemmas.ReaderDocView   -- specification-side definitions of the do
 import Genshi.Model.OutputWsForest
 import Genshi.Lemmas.OutputWsSpec     -- `normForest`, `wsDom`: specification side of the strip theorems (Mathlib-free)
 import Genshi.Lemmas.ReaderTreeMixed  -- `forestMixedOk`, `forestPiecesXM`: mixed-namespace tree theorems (Mathlib-free)
+import Genshi.Lemmas.ReaderXmlViewMixed  -- `forestPiecesQ`, `mergeGoQ` (Mathlib-free)
 namespace Driver.C08
 open Genshi Genshi.Reader Genshi.Output Genshi.Sexp
 
@@ -125,15 +126,14 @@ def expectXhtml (strip : Bool) (dropd : Bool) (dopt : Option DocTypeT) (s : Stre
     else if !attrValOkB u then out "namespace-uri"
     else if !okList body0 then out "not-a-forest"
     else if !forestUniformNs u body0 then
-      -- forests that mix namespaces: `xhtml_roundtrip_tree_mixed_tokens(_strip)_partial` gives the tokens; the
-      -- specification-side `xmlView` resolves them (no theorem yet says what it resolves them to)
+      -- forests that mix namespaces: `xhtml_roundtrip_tree_mixed_qnames(_strip)_partial` — every element in its own
+      -- namespace (`forestPiecesQ`)
       (if dopt.isSome || ns.length != body0.length || !dropd then out "mixed-namespaces"
        else if !forestMixedOk body0 then out "mixed-namespaces-xml"
        else if strip && !wsDom .xhtml body0 then out "whitespace-domain"
        else if !xhtmlForestOk body || !forestNsValsOk body then out "mixed-body-hypotheses"
-       else match xmlView [] (assemble (forestPiecesXM [] body)) with
-         | some ts => .list [.atom "ok", .list (ts.map xtok)]
-         | none => out "mixed-not-resolvable")
+       else if !xmlForestOk true body then out "mixed-not-resolvable"
+       else .list [.atom "ok", .list ((mergeGoQ [] (forestPiecesQ body)).map xtok)])
     else if strip && !wsDom .xhtml body0 then out "whitespace-domain"
     else if !xKidsOkP false body then out "body-hypotheses"
     else if !xmlForestOkP true body then out "not-resolvable"
